@@ -6,7 +6,16 @@ from ..runner import Prop
 from .c01 import decl_yara, g_decl, g_smatch, g_prm, string_matches, encodings, gen_decl, gen_text, widen, ALNUM
 
 CONDS = ["any of them", "all of them", "#s0 > 1", "$s0 at 0", "$s0 in (1..20)", "not $s0", "#s0 == 2 or @s0[1] > 3",
-         "true", "for any of them : ( # > 1 )", "!s0[1] == 4"]
+         "true", "for any of them : ( # > 1 )", "!s0[1] == 4", '"QQ" != "AB"', '"AB" == "AB" and #s0 >= 0',
+         '"AB" contains "A"']
+
+# texts the compiler must refuse AFTER interning something new (string names, byte literals, meta keys) that the
+# accepted rules use as well; the error is ignored and the same compiler is used further (harness: expect_error)
+REFUSED = ['rule bad_lit { condition: "AB" == nope_undefined }',
+           'rule bad_lit2 { condition: "QQ" == nope_undefined or "AB" == "QQ" }',
+           'rule bad_names { strings: $s0 = "r0" $s1 = "r1" $s2 = "r2" condition: nope_undefined }',
+           'rule bad_meta { meta: s1 = 1 s0 = "AB" condition: nope_undefined }',
+           'rule bad_ref { strings: $refstr = "refstr" condition: $refstr and nope_undefined }']
 
 
 def plain_decl(text, **kw):
@@ -189,6 +198,28 @@ class C12(Prop):
                 case["frag"] = {"start": rng.choice([0, 4096, 1 << 32]), "mode": rng.choice(["fast", "fast", "legacy", "single_pass"])}
                 case["include_not_matched"] = rng.chance(1, 3)
             return case
+        if rng.chance(1, 10):
+            # strings WITHOUT an extractable atom (scanned on their own in every region), fragmented input, a lowered
+            # limit: B reaches the limit in an early region, A matches only in a later one.  Not modelled in Coq
+            # (regexes): union vs alone, whole reported rules.
+            raws = [("/[0-9]+/", b"1 22 333 4 5 "), ("/x+y+/", b"xxyy xy "), ("/[a-c]{2}/", b"ab ca bb "), ("/Q+/", b"Q QQ Q ")]
+            ia, ib = rng.shuffle(list(range(len(raws))))[:2]
+            A = [{"name": "a0", "decls": [], "raw": [raws[ia][0]], "cond": "any of them", "private": False}]
+            B = [{"name": "b0", "decls": [], "raw": [raws[ib][0]], "cond": rng.choice(["any of them", "#s0 > 1"]), "private": False}]
+            order = rng.choice([[["B", 0], ["A", 0]], [["B", 0], ["A", 0]], [["A", 0], ["B", 0]]])
+            regs, addr = [], rng.choice([0, 4096])
+            for k in range(rng.range(2, 4)):
+                if k == 0:
+                    mem = raws[ib][1] * rng.range(1, 3)
+                else:
+                    mem = rng.choice([raws[ia][1], raws[ib][1], raws[ia][1] + raws[ib][1], b"-- "])
+                regs.append({"start": addr, "hex": mem.hex(), "fail": False})
+                addr += len(mem) + rng.choice([0, 16])
+            regs.append({"start": addr, "hex": (b".. " + raws[ia][1]).hex(), "fail": False})
+            return {"A": A, "B": B, "nsA": nsA, "nsB": nsB, "order": order, "mem": "", "regions": regs,
+                    "mode": rng.choice(["legacy", "fast", "single_pass"]), "rawfam": True,
+                    "include_not_matched": rng.chance(1, 2), "profile": rng.choice(["speed", "memory"]),
+                    "params": {"string_max_nb_matches": rng.choice([1, 2, 3])}}
         A = gen_rules("a", rng.range(1, 2), [])
         if rng.chance(1, 3):
             # global rules in A: one that holds, then (half of the time) one that does not — the namespace of A
@@ -263,6 +294,9 @@ class C12(Prop):
                 "include_not_matched": rng.chance(2, 3),
                 "profile": rng.choice(["speed", "memory"]), "params": params}
         if rng.chance(1, 4):
+            case["refused"] = [{"pos": rng.choice([0, 0, rng.below(len(order))]), "ns": rng.choice([nsA, nsB, "ns_noise"]),
+                                "src": rng.choice(REFUSED)} for _ in range(rng.range(1, 2))]
+        if rng.chance(1, 4):
             # the same input as 1-3 regions of a fragmented scan (fast / legacy / single-pass), full matches requested:
             # the pass that decides rules before the scan must not run; half of the time A is decidable without strings
             mem = bytes(m[:160])
@@ -287,12 +321,20 @@ class C12(Prop):
 
     def entries(self, case, which):
         out = []
-        for side, i in case["order"]:
+        refused = case.get("refused", []) if which == "AB" else []
+        for pos, (side, i) in enumerate(case["order"]):
+            for rf in refused:
+                if rf["pos"] == pos:
+                    out.append({"ns": rf["ns"], "src": rf["src"], "expect_error": True})
             if side not in which:
                 continue
             r = case[side][i]
-            out.append({"ns": case["nsA"] if side == "A" else case["nsB"],
-                        "src": rule_src(r["name"], r["decls"], r["cond"], rule_flags(r), r.get("imports", ()))})
+            if r.get("raw"):
+                src = "rule %s { strings: %s condition: %s }" % (
+                    r["name"], " ".join("$s%d = %s" % (j, rx) for j, rx in enumerate(r["raw"])), r["cond"])
+            else:
+                src = rule_src(r["name"], r["decls"], r["cond"], rule_flags(r), r.get("imports", ()))
+            out.append({"ns": case["nsA"] if side == "A" else case["nsB"], "src": src})
         return out
 
     def hcase(self, case, which):
@@ -322,7 +364,8 @@ class C12(Prop):
             ctx.count("private_strings=%d" % sum(1 for r in c["A"] + c["B"] for d in r["decls"] if d.get("private")))
             ctx.count("xor_strings=%d" % sum(1 for r in c["A"] + c["B"] for d in r["decls"] if d["xor"] is not None))
             ctx.count("first=%s" % c["order"][0][0])
-            ctx.count("family=%s" % ("fragmented-entrypoint" if c.get("frag") else "modules" if c.get("asset")
+            ctx.count("refused_texts=%d" % len(c.get("refused", [])))
+            ctx.count("family=%s" % ("raw-regex-fragmented" if c.get("rawfam") else "fragmented-entrypoint" if c.get("frag") else "modules" if c.get("asset")
                                      else "strings-fragmented-%s" % c["mode"] if c.get("regions") is not None else "strings"))
             ctx.count("globals_in_A=%d" % sum(1 for r in c["A"] if r.get("global")))
             ctx.count("globals_in_B=%d" % sum(1 for r in c["B"] if r.get("global")))
@@ -370,7 +413,7 @@ class C12(Prop):
                 same = False            # every non-private rule is reported with include_not_matched
             # with matched-only reporting, which rules are present is compared union vs alone (above); the Coq side
             # checks the strings of the rules that are there
-            present = ur is not None and not r.get("private") and not case.get("frag")
+            present = ur is not None and not r.get("private") and not case.get("frag") and not case.get("rawfam")
             rules.append("(%s, %s)" % (gbool(present), sds))
             if not present:
                 continue
